@@ -35,6 +35,8 @@ def compile_pattern(p: str) -> ast.AST:
   mod = ast.parse(src.strip())
   if len(mod.body) != 1:
     raise ValueError(f'pattern must be one statement or expression: {p}')
+  from mlmverif.canon import canonical
+  mod = canonical(mod)
   node = mod.body[0]
   if isinstance(node, ast.Expr):
     node = node.value
